@@ -299,6 +299,7 @@ func (f *fn) paramPath(e ast.Expr) string {
 	switch x := unparen(e).(type) {
 	case *ast.Ident:
 		o := f.pi.info.Uses[x]
+		f.path(x) // in a statement slice a struct variable is registered on first use
 		if _, ok := f.structs[o]; ok || f.foreign[o] {
 			return x.Name
 		}
